@@ -334,7 +334,14 @@ def value_shard(args):
               "line": c["line"], "stratum": st}
         if f[0].startswith("exc"):
             what = unhex(f[1]) if len(f) > 1 else ""
-            key = "accept:%s:%s" % (st, "parse-exception" if f[0] == "exc-parse" else "eval-exception")
+            kst = st
+            # mechanisms must not share a key: a constant `Cste::X` in the then-branch of a conditional is its own (open)
+            # finding whatever the stratum that generated the formula; a comparison whose left operand starts with '(' too
+            if f[0] == "exc-parse" and "invalid variable name ':'" in what and re.search(r"\?[^:?]*Cste\s*::", c["formula"]):
+                kst = "cond-cste-then"
+            elif f[0] == "exc-parse" and re.search(r"unmatched parenthesis|unbalanced parenthesis", what) and st.startswith("cond"):
+                kst = "cond-left-paren"
+            key = "accept:%s:%s" % (kst, "parse-exception" if f[0] == "exc-parse" else "eval-exception")
             if f[0] == "exc-eval" and (c["dec"] == 0.0 or c["err"] > 1e6 * abs(c["ref"])):
                 stat("skipped-ill-conditioned:" + st)
                 continue
